@@ -632,7 +632,20 @@ pub fn run_case(line: &str) -> (String, Vec<String>) {
 
     // ---- C01: every schedule gives the same observation
     let mut rng = Rng::new(delivered.len() as u64 * 31 + delivered.first().copied().unwrap_or(0) as u64);
-    let scheds = schedules(&mut rng, delivered.len());
+    // beyond 4 MiB the per-byte event lists of `schedules` (16 bytes per input byte, five lists)
+    // would dominate memory: the same chunk sizes with a source that fills every buffer
+    let scheds = if delivered.len() <= 4 << 20 {
+        schedules(&mut rng, delivered.len())
+    } else {
+        let c = *rng.pick(&[3usize, 7, 9, 16, 4096]);
+        vec![
+            ("one-shot".to_string(), vec![], 16384),
+            ("1-byte".to_string(), vec![], 1),
+            ("chunk2".to_string(), vec![], 2),
+            ("chunk8".to_string(), vec![], 8),
+            (format!("chunk{}", c), vec![], c),
+        ]
+    };
     let base = run_parser(mk(scheds[0].1.clone()), scheds[0].2);
     let base_text = base.text(false);
     for (name, ev, chunk) in scheds.iter().skip(1) {
